@@ -306,6 +306,9 @@ def run(tier):
     res.assumptions = ["expectations are drawn at random (about one third correct); rules files include files with repeated rule names",
                        "JUnit shows neither rules without expectation nor the evaluated status of met expectations; those are not compared for that format"]
     run_trace(res, tier)
+    # --dir: which test files are run against which rules file (GuardFiles.IsTestNameOf)
+    import files
+    files.test_dirs(res, tier)
     res.cov["rule"] = ("random rules files (incl. repeated rule names) x 1-4 inputs x random expectations x {single file, --dir} x "
                        "{plain, json, yaml, junit}; per test case the met / unmet / no-expectation sets, the evaluated statuses and the "
                        "exit code judged by TraceTest against Denote of that input; evaluated statuses cross-checked against "
